@@ -172,7 +172,8 @@ def ob_nested(b0: int, b1: int, b2: int, b3: int) -> bool:
         data = tlv(1106, fixed1106 + inner)
     else:
         data = tlv(1162, v[3:4] + bytes([0, 0, 0, 0, 0, 0, 10]) + inner)
-    FUEL.reset(2 * len(data) + 8)
+    # one loop iteration per TLV and sub-TLV is what the input contains (k + 2 headers); a small constant factor on top
+    FUEL.reset(4 * k + 16)
     try:
         LinkState.unpack(data, 1)
     except Exception:
